@@ -167,6 +167,20 @@ class StaticFn:
         self.fn = fn
 
 
+class PropVal:
+    """property(fget) built by a call (e.g. by a factory function) and stored as a class attribute: reading it through an instance calls fget(instance)."""
+
+    def __init__(self, fget):
+        self.fget = fget
+
+
+@model("builtins.property")
+def _property(I, fget=None, fset=None, fdel=None, doc=None):
+    if fget is None or fset is not None or fdel is not None:
+        raise Unsupported("property() with a setter / deleter or without a getter")
+    return PropVal(fget)
+
+
 @model("builtins.staticmethod")
 def _staticmethod(I, f):
     return StaticFn(f)
@@ -254,6 +268,17 @@ def _float(I, v=0):
 @model("builtins.bool")
 def _bool(I, v=False):
     return I.truth(v)
+
+
+@model("builtins.format")
+def _format(I, v, spec=""):
+    """format(value, spec): the same formatting an f-string replacement field {value:spec} performs."""
+    from .strings import SStr, fmt_value
+    if isinstance(spec, SStr):
+        spec = spec.concrete()
+    if not isinstance(spec, str):
+        raise Unsupported("format() with a non-literal format specification")
+    return fmt_value(I, v, spec, None)
 
 
 @model("builtins.str")
